@@ -26,6 +26,9 @@ def dispatch(prop, tier):
     if prop == "C12":
         from . import check_names
         return check_names.run(prop, tier)
+    if prop == "C18":
+        from . import check_config
+        return check_config.run(prop, tier)
     if prop == "C17":
         from . import check_part
         return check_part.run(prop, tier)
